@@ -457,6 +457,8 @@ impl<'s, I: Interner, Solver: SolveDatabase<I>> Fulfill<'s, I, Solver> {
         let mut progress = true;
 
         while progress {
+            #[cfg(feature = "verif-hooks")]
+            chalk_solve::verif_hooks::tick();
             progress = false;
             debug!("start of round, {} obligations", self.obligations.len());
 
